@@ -167,6 +167,40 @@ def gen_problem(rng, easy, chk):
     return vr, nets, m, cons
 
 
+def gen_order_problem(rng):
+    """two or three resources of very different sizes, most chips described by an exception whose dictionary lists
+    the resources in another order than the machine's defaults, and a load close to capacity: whoever confuses
+    positions with names overfills a chip"""
+    w, h = rng.choice(((1, 1), (2, 1), (2, 2), (3, 2)))
+    names = RES[:rng.choice((2, 2, 3))]
+    big = {r: rng.choice((2, 3, 5)) * (10 ** k) for k, r in enumerate(names)}       # e.g. 3 cores, 50 of the next ...
+    order = list(names)
+    rng.shuffle(order)
+    resources = {r: big[r] for r in order}
+    exc = {}
+    for x in range(w):
+        for y in range(h):
+            if rng.random() < 0.7:
+                keys = list(names)
+                rng.shuffle(keys)
+                exc[(x, y)] = {r: max(1, big[r] - rng.choice((0, 0, 1))) for r in keys}
+    m = Machine(w, h, chip_resources=resources, chip_resource_exceptions=exc)
+    vr = {}
+    total = {r: sum(m[xy][r] for xy in m) for r in names}
+    used = {r: 0 for r in names}
+    for i in range(40):
+        keys = list(names)
+        rng.shuffle(keys)
+        need = {r: rng.randint(0, max(1, big[r] // 2)) for r in keys}
+        if any(used[r] + need[r] > 0.8 * total[r] for r in names):
+            break
+        for r in names:
+            used[r] += need[r]
+        vr["v%d" % i] = need
+    nets = [Net(rng.choice(list(vr)), [rng.choice(list(vr))]) for _ in range(len(vr))] if vr else []
+    return vr, nets, m, []
+
+
 def _consistent(cons):
     """drop location constraints that would pin one (transitive) same-chip group to two chips"""
     parent = {}
@@ -244,7 +278,11 @@ def run(chk):
     nprob = chk.pick(500, 12000)
     for i in range(nprob):
         easy = i % 2 == 0
-        vr, nets, m, cons = gen_problem(rng, easy, chk)
+        if i % 10 == 9:
+            easy = False
+            vr, nets, m, cons = gen_order_problem(rng)
+        else:
+            vr, nets, m, cons = gen_problem(rng, easy, chk)
         vidx = {v: k + 1 for k, v in enumerate(vr)}
         tr = problem_json(vr, m, cons, vidx)
         tr["easy_generated"] = easy
@@ -254,7 +292,7 @@ def run(chk):
             run_one(name, f, args, vidx, len(vr), evs)
             chk.evaluations += 1
         # annealing with effort: python kernel with snapshots at temperature changes, C kernel
-        heavy = (i % 4 in (0, 1)) if chk.quick else True     # easy (even i) and general (odd i) problems alike
+        heavy = (i % 4 in (0, 1) or i % 10 == 9) if chk.quick else True     # easy (even i) and general (odd i) problems alike
         if heavy:
             for kname, kern in (("python", PythonKernel), ("c", CKernel)):
                 if kern is None:
